@@ -95,6 +95,47 @@ func genForkBlocks(t *rapid.T) []world.ForkBlock {
 	return out
 }
 
+// genDuel draws a flip-flop history: two (or three) branches forking above a1 overtake each other in turn, so the
+// same blocks are applied, undone, applied again and undone again.
+func genDuel(t *rapid.T) []world.ForkBlock {
+	out := []world.ForkBlock{{Num: 0, ID: "b0"}}
+	trunk := rapid.IntRange(1, 3).Draw(t, "trunk")
+	parent := "b0"
+	for n := 1; n <= trunk; n++ {
+		id := fmt.Sprintf("t%d", n)
+		out = append(out, world.ForkBlock{Num: uint64(n), ID: id, Parent: parent})
+		parent = id
+	}
+	nside := rapid.IntRange(2, 3).Draw(t, "sides")
+	tipID := make([]string, nside)
+	tipNum := make([]uint64, nside)
+	for i := range tipID {
+		tipID[i], tipNum[i] = parent, uint64(trunk)
+	}
+	lag := rapid.SampledFrom([]uint64{100, 100, 6, 4}).Draw(t, "liblag")
+	rounds := rapid.IntRange(2, 6).Draw(t, "rounds")
+	highest := uint64(trunk)
+	for r := 0; r < rounds; r++ {
+		side := r % nside
+		if nside == 3 && rapid.Bool().Draw(t, "pickside") {
+			side = rapid.IntRange(0, nside-1).Draw(t, "side")
+		}
+		target := highest + uint64(rapid.IntRange(1, 2).Draw(t, "overtake"))
+		for tipNum[side] < target {
+			n := tipNum[side] + 1
+			id := fmt.Sprintf("%c%d", 'a'+side, n)
+			lib := uint64(0)
+			if n > lag {
+				lib = n - lag
+			}
+			out = append(out, world.ForkBlock{Num: n, ID: id, Parent: tipID[side], LibNum: lib})
+			tipID[side], tipNum[side] = id, n
+		}
+		highest = tipNum[side]
+	}
+	return out
+}
+
 func genC03(t *rapid.T) c03Case {
 	c := c03Case{}
 	c.Prog = pgen.Gen(t, pgen.Opts{MinMods: 1, MaxMods: 4, InitialBlocks: []uint64{1}, ForceStoreOutput: true})
@@ -113,7 +154,11 @@ func genC03(t *rapid.T) c03Case {
 			c.Prog.Beh[name] = b
 		}
 	}
-	c.Blocks = genForkBlocks(t)
+	if rapid.IntRange(0, 9).Draw(t, "duel") < 5 {
+		c.Blocks = genDuel(t)
+	} else {
+		c.Blocks = genForkBlocks(t)
+	}
 	return c
 }
 
